@@ -103,6 +103,27 @@ Theorem C10_cross_refuted_user_function :
 Proof. exact Refuted.user_refutes. Qed.
 Print Assumptions C10_cross_refuted_user_function.
 
+(* ---- conditional-format rules: every place a user formula is stored ---------------------------------
+   add / update_conditional_formatting run cf_rule_input_to_internal over the rule: EVERY formula
+   slot of EVERY rule kind (CellIs formula and formula2, Formula, the Formula thresholds of colour
+   scales, data bars (min, max), icon sets and icon ratings) goes through user_formula_to_internal.
+   If every slot typed in the active configuration is the display text of a tree inside the proved
+   part, the rule is accepted and its stored slots are the ENGLISH prints of the same trees, slot by
+   slot — whatever the language and locale. *)
+Theorem C10_cf_rules_stored_in_english :
+  forall m_act nm_act m_en nm_en env (r : cf_input) (es : list ast),
+  Forall2 (slot_ok m_act nm_act env) (cf_slots r) es ->
+  exists r', cf_rule_input_to_internal m_act nm_act m_en nm_en env r = Ok r' /\
+             cf_slots r' = map (print m_en nm_en) es.
+Proof. exact cf_rule_stored_in_english. Qed.
+Print Assumptions C10_cf_rules_stored_in_english.
+
+Example C10_cf_nonvacuous :
+  Forall2 (slot_ok CfExample.de11 (names_of 1) Example.env1) (cf_slots CfExample.rule) [CfExample.b1; CfExample.b2] /\
+  cf_rule_input_to_internal CfExample.de11 (names_of 1) CfExample.en11 (names_of 0) Example.env1 CfExample.rule
+  = Ok (CfCellIs (print CfExample.en11 (names_of 0) CfExample.b1) (Some (print CfExample.en11 (names_of 0) CfExample.b2))).
+Proof. exact (conj CfExample.slots_ok CfExample.stored). Qed.
+
 (* ---- set_language / set_locale leave everything stored untouched ------------------------------- *)
 Theorem C10_switch_stores :
   forall (C : Type) (valid_locale valid_lang : text -> bool)
